@@ -21,6 +21,7 @@
 #include <cstdarg>
 #include <cstdio>
 #include <cstring>
+#include <functional>
 #include <iostream>
 #include <stdexcept>
 #include <string>
@@ -1607,6 +1608,22 @@ private:
    /// @since  1.46.0, 13.01.2021
    void internalCopy( const char* src) noexcept;
 
+   /// Value semantics for a source that is (part of) this string, like in
+   /// std::string: If the source range starts inside the buffer of this
+   /// object, it is copied into \a tmp before this string gets modified.
+   ///
+   /// @param[in]   src
+   ///    Pointer to the first character of the source range.
+   /// @param[in]   count
+   ///    Number of characters of the source range.
+   /// @param[out]  tmp
+   ///    The buffer that takes the copy of an aliasing source.
+   /// @return
+   ///    \a src if the source is outside of this object, \a tmp otherwise.
+   /// @since  1.47.0, 30.09.2026
+   const char* unaliasedSource( const char* src, size_t count,
+      char ( &tmp)[ L + 1]) const noexcept;
+
    /// Actual implementation of appending a string.
    /// The calling function must ensure that pos + count is within the given
    /// string.
@@ -1810,10 +1827,25 @@ template< size_t L> inline void FixedString< L>::internalCopy( const char* src)
 {
    if (mLength > 0)
    {
-      std::memcpy( mString, src, mLength);
+      // the source may be (part of) this string: assign( c_str() + 1)
+      std::memmove( mString, src, mLength);
    } // end if
    mString[ mLength] = '\0';
 } // FixedString< L>::internalCopy
+
+
+template< size_t L> inline
+   const char* FixedString< L>::unaliasedSource( const char* src, size_t count,
+      char ( &tmp)[ L + 1]) const noexcept
+{
+   const std::less< const char*>  before;
+   if (before( src, mString) || before( &mString[ L], src))
+      return src;
+   // not more than the rest of the own buffer can be meant
+   const size_t  rest = static_cast< size_t>( &mString[ L] - src) + 1;
+   std::memcpy( tmp, src, std::min( count, rest));
+   return tmp;
+} // FixedString< L>::unaliasedSource
 
 
 template< size_t L> template< size_t S>
@@ -2117,6 +2149,10 @@ template< size_t L>
    FixedString< L>& FixedString< L>::insert( size_t index, const char* str,
       size_t count) noexcept
 {
+   char  tmp[ L + 1];
+
+   // the characters to insert may be a part of this string
+   str = unaliasedSource( str, count, tmp);
 
    if (index < mLength)
    {
@@ -2431,12 +2467,18 @@ template< size_t L>
    FixedString< L>& FixedString< L>::sprintf( const char* format, ...) noexcept
 {
    va_list  ap;
+   // work on a copy of the buffer and store the result afterwards: an argument
+   // may point into this string, sprintf( "%s-%d", c_str(), 1)
+   char     work[ L + 1];
+
+   std::memcpy( work, mString, L + 1);
 
    ::va_start( ap, format);
    // the result can be bigger than the length type can hold, or negative
-   const int  result = std::vsnprintf( mString, L + 1, format, ap);
+   const int  result = std::vsnprintf( work, L + 1, format, ap);
    ::va_end( ap);
 
+   std::memcpy( mString, work, L + 1);
    mLength = (result < 0) ? 0 : std::min( L, static_cast< size_t>( result));
    mString[ mLength] = '\0';
 
@@ -2741,6 +2783,10 @@ template< size_t L> inline
    // pos1 == mLength is valid (appends), like in std::string
    if (pos1 > mLength)
       return *this;
+   char  tmp[ L + 1];
+   // the replacement may be a part of this string
+   str = unaliasedSource( &str[ pos2], count2, tmp);
+   pos2 = 0;
    size_t  copy_len = count2;
    // count1 can be max(64bit), so we cannot calc pos1 + count1
    if (count1 >= mLength - pos1)
